@@ -16,6 +16,7 @@ statements hold along every request sequence.
 -/
 import IpcHub.Lemmas.AuthRel
 import IpcHub.Lemmas.AuthTokens
+import IpcHub.Lemmas.AuthTokSim
 import IpcHub.Lemmas.Ids
 import IpcHub.Lemmas.AuthWitness
 import IpcHub.Model.AuthInst
@@ -369,6 +370,20 @@ theorem c11_tokens_issue (ops : List TokOp) (u : List Char) :
     rw [tget_tput_self]
     rfl
 
+
+/-- **The token table simulates the monitor's grants.**  Run the model's table and the monitor's
+    grant list side by side through ANY history of logins, refreshes (any string), access checks
+    (any string), sweeps and clock ticks: afterwards `AccessCheck` answers, for every string, exactly
+    the user `validAccess` finds among the grants — a token authenticates iff it is the access token of
+    a grant that was not refreshed away and has not expired.  This is the token half of `Rel`
+    (hypothesis `ht` of `c11_rel_users`) for every reachable state. -/
+theorem c11_tokens_simulate_grants (ops : List TokOp) (k : Nat) :
+    let p := grun Auth.genCfg TState.init [] ops
+    (accessCheck p.1.t k p.1.now).2 = validAccess p.2 p.1.now k := by
+  intro p
+  have hTTL : Auth.genCfg.accessTTL ≤ Auth.genCfg.refreshTTL := by
+    rw [c11_model_flags.2.2.2.2.2.2.2.1, c11_model_flags.2.2.2.2.2.2.2.2.1]; decide
+  exact (Sim.run Auth.genCfg hTTL ops TState.init [] Sim.init).access k
 
 /-! ## secrecy of tokens and nonces -/
 
